@@ -122,4 +122,11 @@ PROPS["C12"] = {
     "nontrivial_min_tokens": 40, "sub_max_len": 20000, "sub_per_checker": 4,
 }
 
+PROPS["C20"] = {
+    "level_text": "Theorems for every input: k-means returns exactly min(k,n) centroids, one in-range assignment per vector, nil iff nothing to cluster, first-arg-min indices valid, determinism (a function); quantisers preserve length, int8 refuses to work untrained. The bit-exact transcriptions of clustering.go (stride initialisation, first arg-min, single-pass update, empty clusters keep their centroid, maxIter) and quantizer.go (binary16 rounding via SpecFloat at (11,16), math.Round half away from zero, scale by absMax) are compared with the code on training sets with duplicates, k>n, k=n, collinear data and boundary values; input immutability, run-to-run determinism and 'trained twice => search-identical' are observed on the implementation; finiteness, bounding box (Euclidean family) and the absMax/254 bound are evaluated on the implementation's outputs by the extracted oracle.",
+    "level_note": "Trusted: as C02 plus x448/float16 = IEEE round-to-nearest-even (exercised on boundary values). The real-number bounds (bounding box, half-ulp, absMax/254) are checked per run on outputs, not proved over floats (partial).",
+    "correspondence": "clustering.go ~ Model.KMeans; quantizer.go ~ Model.Quantizer",
+    "nontrivial_min_tokens": 12,
+}
+
 NOT_YET = {}
